@@ -237,7 +237,7 @@ def _threshold_body(ctx, d):
             ctx.require(not acc4, f"check-malformed-accepted:{mode}", lambda: f"{chk.__name__}({_short(spec)}, {n}) returned {_short(out4)}; not a list of {'rows of ' if nest else ''}exactly {n} numbers")
 
 
-@CHECK.given("thresholds", threshold_cases, quick=1500, thorough=120000)
+@CHECK.given("thresholds", threshold_cases, quick=1500, thorough=60000)
 def thresholds(ctx, d):
     _threshold_body(ctx, d)
 
@@ -716,7 +716,7 @@ def _config_body(ctx, d):
     ctx.violate(f"config-{cls}-accepted", f"{what}: configuration was accepted; filtering_params={_short({k: v for k, v in obj.filtering_params.items() if k != 'target_labels'}, 300) if kind == 'perception' else ''}")
 
 
-@CHECK.given("config", config_cases, quick=700, thorough=40000)
+@CHECK.given("config", config_cases, quick=700, thorough=20000)
 def config(ctx, d):
     _config_body(ctx, d)
 
@@ -783,7 +783,7 @@ def frame_cases(draw, tier):
     return {"task": task, "prefix": prefix, "labels": labels, "which": which, "group": group, "args": args, "modes": modes}
 
 
-@CHECK.given("frame_configs", frame_cases, quick=500, thorough=30000)
+@CHECK.given("frame_configs", frame_cases, quick=500, thorough=15000)
 def frame_configs(ctx, d):
     from perception_eval.evaluation.result.perception_frame_config import CriticalObjectFilterConfig, PerceptionPassFailConfig
 
